@@ -37,6 +37,7 @@ type c20Req struct {
 	t        int64
 	status   string
 	rspT     int64
+	rspN     int
 	answered bool
 }
 
@@ -65,6 +66,7 @@ func checkC20(run *Run, res *Result) {
 		}
 		return true
 	}
+	lateStreamReported := false
 	for i := range run.Evs {
 		e := &run.Evs[i]
 		if e.T > endT {
@@ -93,7 +95,7 @@ func checkC20(run *Run, res *Result) {
 			}
 		case journal.KRsp:
 			if q := reqByID[e.ID]; q != nil {
-				q.answered, q.status, q.rspT = true, e.S2, e.T
+				q.answered, q.status, q.rspT, q.rspN = true, e.S2, e.T, e.N
 			}
 		case journal.KKVR:
 			lastRead[string(e.Key)] = e.Raw
@@ -106,6 +108,28 @@ func checkC20(run *Run, res *Result) {
 		case journal.KNote:
 			if e.S == "target-request" {
 				targetID = e.ID
+			}
+			if e.S == "op-stream-event-at-listener" {
+				// only when the wrapper had returned while its request was still unanswered: then the request was pending at
+				// the deadline and had to be cancelled (a completion processed before the waiter ran is just a late success
+				// reported as an error, which the property allows)
+				pendingAtReturn := false
+				if afterRet != nil && afterRet.ret != nil {
+					for _, q := range afterRet.reqs {
+						if q.cmd == "CMD_DCPSTREAMREQ" && (!q.answered || q.rspN > afterRet.ret.N) {
+							pendingAtReturn = true
+						}
+					}
+				}
+				if afterRet != nil && afterRet.name == "OpenStream" && afterRet.ret != nil && !strings.HasPrefix(afterRet.ret.S2, "ok:") && pendingAtReturn {
+					if !lateStreamReported {
+						lateStreamReported = true
+						res.violate("C20", "R4-completion-processed-after-failure", e.N, "plain",
+							"OpenStream (%s) had returned %q (event #%d), yet the stream is live on the client: an event the node sent on it afterwards reached the listener - the pending request was not cancelled and its late completion was processed as a success", afterRet.behaviour, afterRet.ret.S2, afterRet.ret.N)
+					}
+				} else {
+					res.probe("stream-event-after-successful-open")
+				}
 			}
 		case journal.KRet:
 			if !strings.HasPrefix(e.S, "op:") || cur == nil || cur.id != e.ID {
